@@ -8,4 +8,4 @@ from pathlib import Path
 from sa import alpha
 ref = alpha.build_reference(Path(sys.argv[1] if len(sys.argv) > 1 else '/repo'))
 alpha.REF_FILE.write_text(json.dumps(ref, indent=0, sort_keys=True))
-print(sum(len(v) for f in ref.values() for v in f.values()), 'locals in', sum(len(f) for f in ref.values()), 'functions')
+print(len(ref.get('__funcs__', {})), 'files;', len(ref.get('__idents__', [])), 'identifiers')
